@@ -215,11 +215,8 @@ func init() {
 		return nil
 	}
 	I[apiP+"AdvanceTime"] = func(t *Thread, fn *ssa.Function, a []Value) Value {
-		for _, tm := range t.ex.timers {
-			if !tm.timerFired && !tm.timerStopped {
-				t.ex.fireTimer(tm)
-				break
-			}
+		if tm := t.ex.nextTimer(); tm != nil {
+			t.ex.fireTimer(tm)
 		}
 		return nil
 	}
@@ -261,6 +258,9 @@ func init() {
 		return eqValue(&StrVal{B: sliceBytes(a[0].(*SliceVal))}, &StrVal{B: sliceBytes(a[1].(*SliceVal))}, nil)
 	}
 	I[apiP+"Ite"] = func(t *Thread, fn *ssa.Function, a []Value) Value {
+		return Ite(a[0].(*Term), a[1].(*Term), a[2].(*Term))
+	}
+	I[apiP+"FIte"] = func(t *Thread, fn *ssa.Function, a []Value) Value {
 		return Ite(a[0].(*Term), a[1].(*Term), a[2].(*Term))
 	}
 	I[apiP+"PutIf"] = func(t *Thread, fn *ssa.Function, a []Value) Value {
